@@ -51,8 +51,16 @@ type extraOut struct {
 	Sel    string `json:"sel"`
 }
 
+type derefOut struct {
+	File string `json:"file"`
+	Name string `json:"name"`
+	Cat  string `json:"cat"`
+	Err  string `json:"err,omitempty"`
+}
+
 type nodeOut struct {
 	K     string    `json:"k"` // type | value | extends | include
+	Deref *derefOut `json:"deref,omitempty"`
 	Cat   string    `json:"cat,omitempty"`
 	Td    bool      `json:"td"`
 	Ref   *refOut   `json:"ref"`
@@ -64,16 +72,17 @@ type nodeOut struct {
 }
 
 type resolveObs struct {
-	ID      json.RawMessage     `json:"id"`
-	Stage   string              `json:"stage"` // ok | parse | circle | check | resolve | panic | timeout
-	Err     string              `json:"err,omitempty"`
-	Nodes   map[string]*nodeOut `json:"nodes,omitempty"`
-	Files   []string            `json:"files,omitempty"`
-	N2C     map[string]map[string]string `json:"n2c,omitempty"`
-	Reqs    map[string]string   `json:"reqs,omitempty"` // union field requiredness after resolution
+	ID    json.RawMessage              `json:"id"`
+	Stage string                       `json:"stage"` // ok | parse | circle | check | resolve | panic | timeout
+	Err   string                       `json:"err,omitempty"`
+	Nodes map[string]*nodeOut          `json:"nodes,omitempty"`
+	Files []string                     `json:"files,omitempty"`
+	N2C   map[string]map[string]string `json:"n2c,omitempty"`
+	Reqs  map[string]string            `json:"reqs,omitempty"`  // union field requiredness after resolution
+	Again string                       `json:"again,omitempty"` // "same" | "differs" | error of a second ResolveSymbols call
 }
 
-func projType(out map[string]*nodeOut, key string, t *parser.Type) {
+func projType(root string, ast *parser.Thrift, out map[string]*nodeOut, key string, t *parser.Type) {
 	if t == nil {
 		return
 	}
@@ -81,12 +90,23 @@ func projType(out map[string]*nodeOut, key string, t *parser.Type) {
 	if t.Reference != nil {
 		n.Ref = &refOut{Name: t.Reference.Name, Idx: t.Reference.Index}
 	}
+	// what a consumer reaches by following the stored binding (semantic.Deref)
+	if p := nd.Guard(func() {
+		a2, t2, err := semantic.Deref(ast, t)
+		if err != nil {
+			n.Deref = &derefOut{Err: err.Error()}
+		} else {
+			n.Deref = &derefOut{File: relTo(root, a2.Filename), Name: t2.Name, Cat: t2.Category.String()}
+		}
+	}); p != "" {
+		n.Deref = &derefOut{Err: "panic: " + p}
+	}
 	out[key] = n
 	if t.KeyType != nil {
-		projType(out, key+".k", t.KeyType)
+		projType(root, ast, out, key+".k", t.KeyType)
 	}
 	if t.ValueType != nil {
-		projType(out, key+".v", t.ValueType)
+		projType(root, ast, out, key+".v", t.ValueType)
 	}
 }
 
@@ -144,16 +164,16 @@ func projAST(root string, ast *parser.Thrift, obs *resolveObs, seen map[*parser.
 		out[f+"|inc:"+strconv.Itoa(i)] = n
 	}
 	for _, td := range ast.Typedefs {
-		projType(out, f+"|td:"+td.Alias+"|type", td.Type)
+		projType(root, ast, out, f+"|td:"+td.Alias+"|type", td.Type)
 	}
 	for _, c := range ast.Constants {
-		projType(out, f+"|const:"+c.Name+"|type", c.Type)
+		projType(root, ast, out, f+"|const:"+c.Name+"|type", c.Type)
 		projValue(out, f+"|const:"+c.Name+"|value", c.Value)
 	}
 	for _, s := range ast.GetStructLikes() {
 		for _, fl := range s.Fields {
 			k := f + "|sl:" + s.Name + "|f:" + fl.Name
-			projType(out, k+"|type", fl.Type)
+			projType(root, ast, out, k+"|type", fl.Type)
 			if fl.IsSetDefault() {
 				projValue(out, k+"|default", fl.Default)
 			}
@@ -173,13 +193,13 @@ func projAST(root string, ast *parser.Thrift, obs *resolveObs, seen map[*parser.
 		for _, fn := range s.Functions {
 			k := f + "|svc:" + s.Name + "|fn:" + fn.Name
 			if !fn.Void {
-				projType(out, k+"|ret", fn.FunctionType)
+				projType(root, ast, out, k+"|ret", fn.FunctionType)
 			}
 			for _, a := range fn.Arguments {
-				projType(out, k+"|arg:"+a.Name+"|type", a.Type)
+				projType(root, ast, out, k+"|arg:"+a.Name+"|type", a.Type)
 			}
 			for _, a := range fn.Throws {
-				projType(out, k+"|throw:"+a.Name+"|type", a.Type)
+				projType(root, ast, out, k+"|throw:"+a.Name+"|type", a.Type)
 			}
 		}
 	}
@@ -226,6 +246,20 @@ func runResolve(root string, c *resolveCase) *resolveObs {
 			obs.N2C = map[string]map[string]string{}
 			obs.Reqs = map[string]string{}
 			projAST(root, ast, obs, map[*parser.Thrift]bool{})
+			// resolving an already resolved tree again must change nothing
+			if err := semantic.ResolveSymbols(ast); err != nil {
+				obs.Again = "error: " + err.Error()
+			} else {
+				o2 := &resolveObs{Nodes: map[string]*nodeOut{}, N2C: map[string]map[string]string{}, Reqs: map[string]string{}}
+				projAST(root, ast, o2, map[*parser.Thrift]bool{})
+				b1, _ := json.Marshal(obs.Nodes)
+				b2, _ := json.Marshal(o2.Nodes)
+				if string(b1) == string(b2) {
+					obs.Again = "same"
+				} else {
+					obs.Again = "differs"
+				}
+			}
 		})
 		if p != "" {
 			obs.Stage, obs.Err, obs.Nodes = "panic", p, nil
